@@ -6,6 +6,7 @@ import (
 	"go/token"
 	"go/types"
 	"sort"
+	"strings"
 
 	"golang.org/x/tools/go/ssa"
 )
@@ -193,6 +194,136 @@ func runC01(c *Ctx, r *Report) {
 		r.floor("stores of term.caseSensitive/normalize in parseTerms", ns, 2)
 	}
 
+	c01r3(c, r)
+	// shared with C02: 'word' terms must match regardless of the scan direction chosen by --scheme/--tiebreak
+	c02r3(c, r)
+	c02r5(c, r) // the pre-filter must not hide lines that match through an upper-case letter
+	c03r4(c, r) // case folding tables are only filled for a scheme name Init knows
+	c01r5(c, r)
+	c01r4(c, r)
+	c08r8(c, r) // interactive list: no matching line dropped after going back to an earlier query
+}
+
+// c01r5: Pattern.IsEmpty looks at the data of the mode that will do the matching.
+func c01r5(c *Ctx, r *Report) {
+	l := c.L
+	r.rule("C01-R5", "E (sibling agreement on the mode switch)", "P1",
+		"MatchItem dispatches on Pattern.extended to extendedMatch or basicMatch; for each value of that flag, every non-constant result of Pattern.IsEmpty that is reachable under it is computed from a field that only the matcher of that mode reads (termSets / text)",
+		"a non-empty query counts as empty in one mode: the matcher is bypassed and every line is listed")
+	ie := l.Fn("fzf", "(*Pattern).IsEmpty")
+	mi := l.Fn("fzf", "(*Pattern).MatchItem")
+	fExt := l.Field("fzf", "Pattern", "extended")
+	tPat := l.Named("fzf", "Pattern")
+	if ie == nil || mi == nil || fExt == nil || tPat == nil {
+		r.unest("anchors", token.NoPos, nil, "anchors Pattern.IsEmpty / MatchItem / extended", "cannot resolve")
+		return
+	}
+	isExt := func(a ssa.Value) bool { f, _ := loadedField(a); return f == fExt }
+	// matcher per mode: callee of MatchItem under extended == m
+	pcM := pathConds(mi)
+	fieldsRead := func(fn *ssa.Function) map[*types.Var]bool {
+		out := map[*types.Var]bool{}
+		eachInstr(fn, func(in ssa.Instruction) {
+			if u, ok := in.(*ssa.UnOp); ok && u.Op == token.MUL {
+				if f, base := loadedField(u); f != nil && base != nil && types.Identical(deref(base.Type()), tPat) {
+					out[f] = true
+				}
+			}
+		})
+		return out
+	}
+	byMode := map[bool]map[*types.Var]bool{}
+	eachInstr(mi, func(in ssa.Instruction) {
+		call, ok := in.(*ssa.Call)
+		if !ok {
+			return
+		}
+		callee := call.Common().StaticCallee()
+		if callee == nil || callee.Signature.Recv() == nil || callee.Pkg != mi.Pkg {
+			return
+		}
+		if recv := callee.Signature.Recv().Type(); !types.Identical(deref(recv), tPat) {
+			return
+		}
+		for _, m := range []bool{true, false} {
+			m := m
+			if ok, _ := pcM.Implies(in.Block(), func(lits []Lit) bool {
+				return hasLit(lits, func(a ssa.Value, v bool) bool { return isExt(a) && v == m })
+			}); ok {
+				if byMode[m] == nil {
+					byMode[m] = map[*types.Var]bool{}
+				}
+				for f := range fieldsRead(callee) {
+					byMode[m][f] = true
+				}
+			}
+		}
+	})
+	if len(byMode[true]) == 0 || len(byMode[false]) == 0 {
+		r.unest("fzf.MatchItem:mode dispatch", mi.Pos(), mi, "a Pattern method called under extended and another under !extended", "not found")
+		return
+	}
+	specific := map[bool]map[*types.Var]bool{true: {}, false: {}}
+	for _, m := range []bool{true, false} {
+		for f := range byMode[m] {
+			if !byMode[!m][f] {
+				specific[m][f] = true
+			}
+		}
+	}
+	names := func(s map[*types.Var]bool) string {
+		var ns []string
+		for f := range s {
+			ns = append(ns, f.Name())
+		}
+		sort.Strings(ns)
+		return strings.Join(ns, ",")
+	}
+	pc := pathConds(ie)
+	nRet := 0
+	for _, b := range ie.Blocks {
+		ret, ok := b.Instrs[len(b.Instrs)-1].(*ssa.Return)
+		if !ok {
+			continue
+		}
+		res := retResult(ret, 0)
+		if _, isc := res.(*ssa.Const); isc {
+			continue
+		}
+		nRet++
+		used := map[*types.Var]bool{}
+		for v := range backwardSlice(res, func(*ssa.CallCommon) bool { return true }, nil) {
+			if f, base := loadedField(v); f != nil && base != nil && types.Identical(deref(base.Type()), tPat) {
+				used[f] = true
+			}
+		}
+		for _, m := range []bool{true, false} {
+			m := m
+			// infeasible if every disjunct says extended == !m
+			contradicts, _ := pc.Implies(b, func(lits []Lit) bool {
+				return hasLit(lits, func(a ssa.Value, v bool) bool { return isExt(a) && v == !m })
+			})
+			if contradicts {
+				continue
+			}
+			okM := false
+			for f := range used {
+				if specific[m][f] {
+					okM = true
+				}
+			}
+			r.check(okM, fmt.Sprintf("fzf.IsEmpty:result for extended=%v", m), ret.Pos(), ie, fmt.Sprintf("reachable with extended=%v and computed from {%s}", m, names(specific[m])), fmt.Sprintf("reachable with extended=%v but computed only from {%s}; that mode matches on {%s}", m, names(used), names(specific[m])))
+		}
+	}
+	r.floor("non-constant results of IsEmpty", nRet, 1)
+}
+
+
+// c01r3: cache scope (shared with C08).
+func c01r3(c *Ctx, r *Report) {
+	l := c.L
+	bp := l.Fn("fzf", "BuildPattern")
+	termS := l.Named("fzf", "term")
 	// ---------------- R3 ----------------
 	r.rule("C01-R3", "A (path conditions)", "P1",
 		"Pattern.Match returns a ChunkCache.Lookup hit and calls ChunkCache.Add only under p.cacheable; in BuildPattern the tests `idx > 0`, `term.inv` and `term.typ != <base kind>` lead to the block that clears `cacheable`; buildCacheKey appends a term's text only under len(termSet)==1, !inv and (fuzzy or typ==termExact)",
@@ -416,9 +547,4 @@ func runC01(c *Ctx, r *Report) {
 		r.check(holds, relName(bk)+":key term guard", in.Pos(), bk, "a term contributes to the cache key only if it is alone in its set, not negated and of the base kind", "OR alternatives / negated / other-kind terms leak into the search-space key")
 	})
 	r.floor("cache-key appends", n, 1)
-	// shared with C02: 'word' terms must match regardless of the scan direction chosen by --scheme/--tiebreak
-	c02r3(c, r)
-	c02r5(c, r) // the pre-filter must not hide lines that match through an upper-case letter
-	c01r4(c, r)
-	c08r8(c, r) // interactive list: no matching line dropped after going back to an earlier query
 }
